@@ -1,4 +1,139 @@
-import EudoxiaModel.Proofs.Reach
+import EudoxiaModel.Proofs.Lift
+/-! # C10 — suspension only between operators, lasts RAM/20 s, returns work intact -/
 namespace Eudoxia.C10
-theorem placeholder : True := trivial
+open Eudoxia OpState Extracted
+
+/-- **C10.1a — the boundary flag.**  After a tick of a running container (that is not frozen over its limit), `can_suspend` holds
+exactly if that tick completed an operator and another operator remains. -/
+theorem can_suspend_iff_operator_boundary {w w' : Store} {c c' : Ctr} {cons cons' : Int} {r : Nat} {last : Bool} {m : Nat}
+    (hc : c.completed = false) (h : runAt w c cons r last m = .ok (w', c', cons')) (hf : c'.frozen = false) :
+    (c'.canSuspend = true ↔ (c'.curOpIdx = c.curOpIdx + 1 ∧ c'.completed = false)) :=
+  (runAt_spec h).2.2.2.2.2.2.2.2.2.2.2.2 hc hf
+
+/-- **C10.1b — a request at any other time, or for a container that is not running, is rejected.** -/
+theorem suspend_request_validated (p : Pool) (l : List Nat) :
+    verifySuspends p l = .ok () ↔ ∀ cid ∈ l, ∃ c, findCtr p.active cid = some c ∧ c.canSuspend = true := by
+  induction l with
+  | nil => simp [verifySuspends]
+  | cons cid rest ih =>
+    unfold verifySuspends
+    cases hf : findCtr p.active cid with
+    | none =>
+      simp only [List.mem_cons, forall_eq_or_imp, hf]
+      constructor
+      · intro h; cases h
+      · rintro ⟨⟨c, hc, _⟩, _⟩; cases hc
+    | some c =>
+      simp only [List.mem_cons, forall_eq_or_imp, hf, Option.some.injEq, exists_eq_left']
+      by_cases hs : c.canSuspend
+      · simp only [hs, ↓reduceIte, true_and]; exact ih
+      · simp only [hs, Bool.false_eq_true, ↓reduceIte, false_and, iff_false]
+        intro h; cases h
+
+/-- **C10.2a — duration.**  The write-out takes ⌊ram/20 · tps⌋ = ⌊ram/g⌋ ticks, at least one. -/
+theorem write_out_ticks (cfg : Cfg) (c : Ctr) : c.writeOutTicks cfg = max 1 (c.ram / cfg.g) ∧ 1 ≤ c.writeOutTicks cfg := by
+  unfold Ctr.writeOutTicks; exact ⟨rfl, by omega⟩
+
+/-- `k` executor ticks of a suspending container -/
+def suspendTicks : Nat → Store → Ctr → Except Err (Store × Ctr)
+  | 0, w, c => .ok (w, c)
+  | k + 1, w, c => match c.suspendTick w with
+    | .error e => .error e
+    | .ok (w1, c1) => suspendTicks k w1 c1
+
+/-- **C10.2b — a suspension accepted now ends exactly `writeOutTicks` ticks later and not before**: after `k` ticks the countdown
+stands at `W − k`; the container makes no progress meanwhile (position, completed prefix and allocation are untouched). -/
+theorem suspension_lasts_exactly (k : Nat) : ∀ (w w' : Store) (c c' : Ctr),
+    suspendTicks k w c = .ok (w', c') →
+    c'.suspLeft = c.suspLeft - (k : Int) ∧ key c' = key c ∧ c'.curOpIdx = c.curOpIdx ∧ c'.ops = c.ops ∧ c'.pos = c.pos ∧ c'.mem = c.mem := by
+  induction k with
+  | zero => intro w w' c c' h; simp [suspendTicks] at h; obtain ⟨_, rfl⟩ := h; simp
+  | succ k ih =>
+    intro w w' c c' h
+    unfold suspendTicks at h
+    split at h
+    · cases h
+    · rename_i w1 c1 h1
+      have e : c1 = { c with suspLeft := c.suspLeft - 1 } := by
+        unfold Ctr.suspendTick at h1
+        split at h1
+        · split at h1
+          · cases h1
+          · cases h1; rfl
+        · cases h1; rfl
+      obtain ⟨i1, i2, i3, i4, i5, i6⟩ := ih _ _ _ _ h
+      rw [e] at i1 i2 i3 i4 i5 i6
+      refine ⟨by simp only [] at i1; rw [i1]; push_cast; omega, i2, i3, i4, i5, i6⟩
+
+theorem no_self_loops (t : OpState) : t ∉ validNext t := by cases t <;> decide
+
+theorem transAll_sets (t : OpState) : ∀ (l : List Nat) (w w' : Store), w.transAll t l = .ok w' → ∀ r ∈ l, w'.stOf r = t := by
+  intro l
+  induction l with
+  | nil => intro _ _ _ r hr; cases hr
+  | cons x xs ih =>
+    intro w w' h r hr
+    unfold Store.transAll at h
+    split at h
+    · cases h
+    · rename_i w1 hw1
+      by_cases hmem : r ∈ xs
+      · exact ih _ _ h r hmem
+      · have hrx : r = x := by rcases List.mem_cons.mp hr with e | e; exact e; exact absurd e hmem
+        subst hrx
+        -- r is not touched again
+        have hself : w1.stOf r = t := transition_self hw1 (transition_ok hw1).2.2.2
+        have : ∀ (ys : List Nat) (u u' : Store), u.transAll t ys = .ok u' → r ∉ ys → u'.stOf r = u.stOf r := by
+          intro ys
+          induction ys with
+          | nil => intro u u' hu _; simp [Store.transAll] at hu; rw [hu]
+          | cons y ys ihy =>
+            intro u u' hu hnot
+            unfold Store.transAll at hu
+            split at hu
+            · cases hu
+            · rename_i u1 hu1
+              rw [ihy _ _ hu (fun hm => hnot (List.mem_cons_of_mem _ hm))]
+              exact transition_other hu1 (fun e => hnot (by rw [e]; simp))
+        rw [this xs w1 w' h hmem, hself]
+
+/-- **C10.3 — returns work intact.**  In the tick its write-out ends, the container's unfinished operators return to PENDING
+(assignable again) and its finished ones stay COMPLETED. -/
+theorem suspension_end_returns_work {w w' : Store} {c c' : Ctr} (hend : c.suspLeft - 1 = 0)
+    (h : c.suspendTick w = .ok (w', c')) :
+    (∀ o ∈ c.unfinished, w'.stOf o = pending ∧ pending ∈ assignable) ∧ (∀ o, w.stOf o = completed → w'.stOf o = completed) := by
+  unfold Ctr.suspendTick at h
+  simp only [hend, beq_self_eq_true, ↓reduceIte] at h
+  split at h
+  · cases h
+  · rename_i w1 hw1
+    have e : w1 = w' := ok_fst h
+    subst e
+    exact ⟨fun o ho => ⟨transAll_sets _ _ _ _ hw1 o ho, by decide⟩, fun o ho => completed_final (transAll_steps _ _ _ _ hw1) o ho⟩
+
+/-- while the write-out is still running nothing happens to operator states -/
+theorem suspension_midway_unchanged {w w' : Store} {c c' : Ctr} (hmid : c.suspLeft - 1 ≠ 0)
+    (h : c.suspendTick w = .ok (w', c')) : w' = w := by
+  unfold Ctr.suspendTick at h
+  have : (c.suspLeft - 1 == 0) = false := by simpa using hmid
+  simp only [this, Bool.false_eq_true, ↓reduceIte] at h
+  exact (ok_fst h).symm
+
+/-- a suspending container keeps its whole allocation until the end and then exactly its allocation is freed: this is the conservation
+invariant of C03 (`PoolInv`) at every tick boundary — restated here for the suspension phase alone -/
+theorem allocation_held_then_freed {w w' : Store} {p p' : Pool} {n : Nat} (inv : PoolInv p n) (h : suspTickAll w p = .ok (w', p')) :
+    p'.availC + cpuSum p'.active + cpuSum p'.suspending = p'.capC ∧ p'.availR + ramSum p'.active + ramSum p'.suspending = p'.capR :=
+  let ⟨i, _⟩ := suspTickAll_inv inv h; ⟨i.cpu, i.ram⟩
+
+/-- suspended containers report no result: results are built from running containers only -/
+theorem results_come_from_running_containers (p : Pool) : ∀ r ∈ (collect p).2, ∃ c ∈ p.active, c.completed = true ∧ r = mkRes c := by
+  intro r hr
+  simp only [collect] at hr
+  obtain ⟨c, hc, rfl⟩ := List.mem_map.mp hr
+  exact ⟨c, (List.mem_filter.mp hc).1, by simpa using (List.mem_filter.mp hc).2, rfl⟩
+
+example : suspendTicks 3 {} { cid := 0, ops := [], cpu := 1, ram := 60, pos := { ops := [] }, suspLeft := 3 } =
+    .ok ({}, { cid := 0, ops := [], cpu := 1, ram := 60, pos := { ops := [] }, suspLeft := 0 }) := by
+  simp [suspendTicks, Ctr.suspendTick, Ctr.unfinished, Store.transAll]
+
 end Eudoxia.C10
